@@ -48,6 +48,10 @@ def main(ctx):
     ctx.extra['exhaustive_short_sequences'] = len(ex)
     hs += ex
     check_histories(ctx, hs, OP_CLASS['C07'], 'store_refines_list', nontrivial)
+    # the event program of `add` regenerated from the source (src_add_advances_index_once) vs the lines real calls execute
+    from harness.addcheck import check_add_program
+
+    check_add_program(ctx)
     return ctx.finish(RULE, TRUSTED, ASSUME)
 
 
